@@ -29,7 +29,7 @@ DESIGN_REF = "§5 C19"
 project = WP.make_project(ID)
 # every case holds ONE allocation failure: whatever is wrong with a packet that leaves the proxy afterwards (judged when it is popped or
 # transmitted, by the rules of the other properties) is a consequence of that failure
-relevant_verdict = WP.make_relevant(ID, also=("C06", "C02", "C04", "C11", "C17", "C13", "C03", "C01", "C05"))
+relevant_verdict = WP.make_relevant(ID, also=("C06", "C02", "C04", "C11", "C17", "C13", "C03", "C01", "C05", "C08"))
 
 
 def base_cfg(rng, rewrites, ttl, types=None):
@@ -89,8 +89,8 @@ def s_pwd(exe, rng):
 def s_local(exe, rng, rep=None):
     h = start(exe, rng, base_cfg(rng, rng.random() < 0.5, False))
     # (every repetition takes the next kind of locally answered request: Access-Reject with the realm's Reply-Message, Accounting-Response,
-    #  Status-Server answer, …)
-    code = rng.choice([1, 4, 12, 1]) if rep is None else [1, 4, 12, 1][rep % 4]
+    #  Status-Server answer, Disconnect-/CoA-NAK with its Error-Cause, …)
+    code = rng.choice([1, 4, 12, 1, 40, 43]) if rep is None else [1, 4, 12, 40, 1, 43][rep % 6]
     user = b"x@none.example" if code != 4 or rng.random() < 0.5 else False
     extra = [(33, b"st1"), (33, b"st2")] + (WH.eap_attrs(rng, valid=False) if rng.random() < 0.3 else [])
     return h, "rq 0 " + h.make_request(0, code=code, user=user, extra=extra).hex()
